@@ -38,6 +38,6 @@ def main(tier, replay=None):
     run_family(run, exe, "Once", "C07", cfgs, lambda c: dict(MaxNow=c.get("MaxNow", 0)),
                {"AtMostOnce", "NobodyEarly", "DoneMeansRan", "NoStuck"}, {"O-once", "O-prog"})
     exer = build("h_l2r")
-    random_runs(run, exer, "Once", cfgs + CONFIGS["t"][:1], 300 if tier == "quick" else 5000, "C07", {"O-once", "O-prog"})
+    random_runs(run, exer, "Once", cfgs + CONFIGS["t"][:1], 300 if tier == "quick" else 60000, "C07", {"O-once", "O-prog"})
     run.cov.setdefault("conformant", True)
     return run.finish()
